@@ -13,6 +13,7 @@ EXPLANATION = (
     '(R2 also: an included configuration reaches every module created before and after the include; R5) compartmentalize_map rewrites nested wildcard keys inside the compartment obtained with entry(..).or_insert(..) - an existing compartment is extended, never rebuilt or shallow-merged - and stores the leaf under the key remainder. '
     '(R4 also: with the path exhausted every entry without a wildcard in its key becomes a property, whatever its value.) '
     "(R2 also: the kept configurations are applied before the node's software is built.) "
+    "(R4 also: every prefix level of a key path is visited - no level is skipped on a loop exit; R6) lengths used as text offsets are byte lengths, never character counts. "
     "Decides these necessary conditions only; not the iff over all configurations.")
 ASSUMPTIONS = ["serde_yml::Mapping::get / keys behave as documented"]
 
